@@ -1,9 +1,131 @@
 (* C13 — De-duplication and inlining options never change the geometry.
-   Only restatements; proofs are in C13/Proofs*.v. *)
-From Coq Require Import List ZArith NArith Bool Reals.
-From T4V Require Import Base.Scalar C13.Model C13.Spec C13.Proofs.
+   Only restatements; proofs are in C13/Proofs.v and C13/ProofsDedup.v.
+   Vocabulary (C13/Spec.v): sigma : surface id -> bool is the sense assignment of
+   a point; rho : cell id -> bool is a MODEL of a cell table when rho c equals the
+   value of cell c's own geometry (CellRefs read through rho); on an acyclic table
+   the model is unique and [cden] computes it; [vden] is the TRIPOLI-4 reading of a
+   volume table. *)
+From Coq Require Import List ZArith NArith Bool Reals Permutation Lia.
+From T4V Require Import Base.Scalar C13.Model C13.Spec C13.Proofs C13.ProofsDedup.
 Import ListNotations.
 Open Scope Z_scope.
+
+(* ---- de-duplication ---- *)
+
+(* "De-duplication merges two surface numbers only if they describe the same
+   surface": at R, if the renumbering sends k to k' then k and k' carry the SAME
+   descriptor d, and k' is kept with it.  Every function of the descriptor - in
+   particular the sense of any point - therefore agrees on k and k'. *)
+Theorem C13_dedup_merges_equal : forall (surfs : list (Z * desc R)) k k',
+  In (k, k') (snd (remove_duplicate_surfaces RS surfs)) ->
+  exists d, In (k, d) surfs /\ In (k', d) surfs
+            /\ In (k', d) (fst (remove_duplicate_surfaces RS surfs)).
+Proof. exact dedup_merges_equal. Qed.
+Print Assumptions C13_dedup_merges_equal.
+
+(* the same for any scalar (binary64 included): a merged pair passed the
+   implementation's own equality test, the survivor is kept *)
+Theorem C13_dedup_merges_tested : forall T (S : Scalar T) surfs k k',
+  In (k, k') (snd (remove_duplicate_surfaces S surfs)) ->
+  exists d d', In (k, d) surfs /\ In (k', d') surfs
+    /\ In (k', d') (fst (remove_duplicate_surfaces S surfs))
+    /\ (desc_eqb S d' d = true \/ (k' = k /\ d' = d)).
+Proof. exact @dedup_merges_tested. Qed.
+Print Assumptions C13_dedup_merges_tested.
+
+(* SurfaceT4.__eq__ at R is equality of (type, parameters, transformation) *)
+Theorem C13_desc_eqb_sound : forall a b : desc R, desc_eqb RS a b = true -> a = b.
+Proof. exact desc_eqb_RS. Qed.
+Print Assumptions C13_desc_eqb_sound.
+
+(* which number survives: never a larger one; at R the smallest number that
+   carries the descriptor; every input number is renumbered *)
+Theorem C13_dedup_survivor_smallest : forall T (S : Scalar T) surfs k k',
+  In (k, k') (snd (remove_duplicate_surfaces S surfs)) -> k' <= k.
+Proof. exact @dedup_survivor_smallest. Qed.
+Print Assumptions C13_dedup_survivor_smallest.
+
+Theorem C13_dedup_survivor_minimal : forall (surfs : list (Z * desc R)) k k' d j,
+  NoDup (map fst surfs) ->
+  In (k, k') (snd (remove_duplicate_surfaces RS surfs)) ->
+  In (k, d) surfs -> In (j, d) surfs -> k' <= j.
+Proof. exact dedup_survivor_minimal. Qed.
+Print Assumptions C13_dedup_survivor_minimal.
+
+Theorem C13_dedup_covers : forall T (S : Scalar T) surfs,
+  Permutation (map fst (snd (remove_duplicate_surfaces S surfs))) (map fst surfs).
+Proof. exact @dedup_covers. Qed.
+Print Assumptions C13_dedup_covers.
+
+(* running de-duplication on its own output removes nothing *)
+Theorem C13_dedup_idempotent : forall T (S : Scalar T) surfs,
+  let new := fst (remove_duplicate_surfaces S surfs) in
+  remove_duplicate_surfaces S new = (new, map (fun e => (fst e, fst e)) new).
+Proof. exact @dedup_idempotent. Qed.
+Print Assumptions C13_dedup_idempotent.
+
+(* renumbering by a sense-preserving map preserves every volume's denotation *)
+Theorem C13_renumber_den : forall (sigma sigma' : Z -> bool) (ren : list (Z * Z)),
+  (forall s s', lookup s ren = Some s' -> sigma' s' = sigma s) ->
+  forall volus volus', renumber_surfaces volus ren = Ok volus' ->
+  forall fuel k, vden fuel sigma' volus' k = vden fuel sigma volus k.
+Proof. exact renumber_den. Qed.
+Print Assumptions C13_renumber_den.
+
+(* --skip-deduplication off vs on: with the senses induced by ANY function of the
+   descriptors (the sign of the implicit function at a point), every volume of
+   the renumbered table over the de-duplicated surfaces has the denotation it
+   had over the original surfaces *)
+Theorem C13_dedup_den : forall (sense : desc R -> bool) surfs volus new ren volus',
+  NoDup (map fst surfs) ->
+  remove_duplicate_surfaces RS surfs = (new, ren) ->
+  renumber_surfaces volus ren = Ok volus' ->
+  forall fuel k, vden fuel (sense_of sense new) volus' k = vden fuel (sense_of sense surfs) volus k.
+Proof. exact dedup_den. Qed.
+Print Assumptions C13_dedup_den.
+
+(* refuted as a statement about the whole tail of convertMCNPGeometry: the union
+   helper planes take part in de-duplication; on these tables (a user PX 1, two
+   copies of PY 0, cell (2 -3) : -1) the default options end in KeyError where
+   --skip-deduplication writes the file.  Known finding helper_plane_dedup_merge. *)
+Theorem C13_dedup_helper_merge_refuted :
+  finish ZS false helper_surfs helper_volus 5 6 = Err EKey /\
+  exists out, finish ZS true helper_surfs helper_volus 5 6 = Ok out.
+Proof. exact dedup_helper_merge_refuted. Qed.
+Print Assumptions C13_dedup_helper_merge_refuted.
+
+(* ---- inlining ---- *)
+
+(* --max-inline-score: for EVERY set of cells to inline and every acyclic cell
+   table, inline_cells keeps the table acyclic, keeps its cells, and changes the
+   denotation of no cell *)
+Theorem C13_inline_den : forall (rank : Z -> nat) (sigma : Z -> bool) fuel ti dic dic',
+  acyclic rank dic -> inline_cells fuel ti dic = Ok dic' ->
+  acyclic rank dic' /\
+  (forall k, lookup k dic <> None <-> lookup k dic' <> None) /\
+  (forall k, lookup k dic <> None -> cden rank sigma dic' k = cden rank sigma dic k).
+Proof. exact inline_den. Qed.
+Print Assumptions C13_inline_den.
+
+(* without acyclicity: whatever model the table has stays a model *)
+Theorem C13_inline_model : forall sigma rho fuel ti dic dic',
+  inline_cells fuel ti dic = Ok dic' -> is_model sigma rho dic -> is_model sigma rho dic'.
+Proof. exact inline_cells_model. Qed.
+Print Assumptions C13_inline_model.
+
+(* the explicit fuel is harmless: on an acyclic table there is a bound above
+   which inline_cells succeeds with one and the same answer *)
+Theorem C13_inline_total : forall (rank : Z -> nat) ti dic, acyclic rank dic ->
+  exists N dic', forall fuel, (N <= fuel)%nat -> inline_cells fuel ti dic = Ok dic'.
+Proof. exact inline_total. Qed.
+Print Assumptions C13_inline_total.
+
+(* cden is THE denotation: it is a model, and every model agrees with it *)
+Theorem C13_acyclic_unique_model : forall (rank : Z -> nat) sigma dic, acyclic rank dic ->
+  is_model sigma (cden rank sigma dic) dic /\
+  forall rho, is_model sigma rho dic -> forall k, lookup k dic <> None -> rho k = cden rank sigma dic k.
+Proof. exact acyclic_unique_model. Qed.
+Print Assumptions C13_acyclic_unique_model.
 
 (* --always-inline-filled / --always-inline-filling: whichever of the four
    shapes pot_fill gives to a filled cell, it denotes container AND filler *)
@@ -13,3 +135,34 @@ Theorem C13_fill_geometry_den : forall sigma rho dic fd fg key cell elt ec,
   geval sigma rho (fill_geometry fd fg key (cgeom cell) elt (cgeom ec)) = rho key && rho elt.
 Proof. exact fill_geometry_den. Qed.
 Print Assumptions C13_fill_geometry_den.
+
+(* ---- non-vacuity ---- *)
+(* a two-level table: cell 1 = -1 AND cell 10, cell 10 = 2 : cell 20, cell 20 = -3;
+   inlining {10, 20} rewrites cell 1 and cell 10; hypotheses of C13_inline_den hold *)
+Example C13_example_inline :
+  let dic := [(1, mkCell 0 None (GNode true [GSurf (-1); GRef 10]));
+              (10, mkCell 1 None (GNode false [GSurf 2; GRef 20]));
+              (20, mkCell 2 None (GNode true [GSurf (-3)]))] in
+  let rank := fun k => if Z.eqb k 1 then 2%nat else if Z.eqb k 10 then 1%nat else 0%nat in
+  acyclic rank dic /\
+  inline_cells 10 [10; 20] dic =
+    Ok [(1, mkCell 0 None (GNode true [GSurf (-1); GNode false [GSurf 2; GNode true [GSurf (-3)]]]));
+        (10, mkCell 1 None (GNode false [GSurf 2; GNode true [GSurf (-3)]]));
+        (20, mkCell 2 None (GNode true [GSurf (-3)]))].
+Proof.
+  cbv zeta. split; [|vm_compute; reflexivity].
+  intros k c H r Hr. cbn [lookup] in H.
+  destruct (Z.eqb 1 k) eqn:E1; [apply Z.eqb_eq in E1; subst k; injection H as <-|].
+  { cbn in Hr. destruct Hr as [<-|[]]. cbn. split; [lia|discriminate]. }
+  destruct (Z.eqb 10 k) eqn:E2; [apply Z.eqb_eq in E2; subst k; injection H as <-|].
+  { cbn in Hr. destruct Hr as [<-|[]]. cbn. split; [lia|discriminate]. }
+  destruct (Z.eqb 20 k) eqn:E3; [apply Z.eqb_eq in E3; subst k; injection H as <-|discriminate].
+  cbn in Hr. destruct Hr.
+Qed.
+
+(* de-duplication of PX 2 / P 1 0 0 2 (both PLANEX 2 after conversion) / PY 3 over
+   the integers: 2 is merged into 1 *)
+Example C13_example_dedup :
+  remove_duplicate_surfaces ZS [(2, mkDesc 0%N [2] None); (3, mkDesc 1%N [3] None); (1, mkDesc 0%N [2] None)]
+  = ([(1, mkDesc 0%N [2] None); (3, mkDesc 1%N [3] None)], [(1, 1); (2, 1); (3, 3)]).
+Proof. vm_compute. reflexivity. Qed.
